@@ -12,7 +12,8 @@ INVS = ["TypeOK", "ReadBackIsHistory", "CountBound", "SurvivorsAreRecentSuffix",
 PROPS = ["OrigRemovedOnlyAfterGzClosed", "NamesNeverReused"]
 
 BASE = dict(BufCap=3, Ls="{0, 3}", Ns="{0, 2}", Opts="{0, 1, 2, 4, 7}", Sizes="{1, 2, 4}", MaxSends=4, MaxDay=1,
-            MaxRestarts=1, MaxCrash=0, MaxFault=0, MaxGzWrites=1, Ticks="FALSE", Fatal="FALSE", FlushOnFatal="TRUE")
+            MaxRestarts=1, MaxCrash=0, MaxFault=0, MaxGzWrites=1, Ticks="FALSE", Fatal="FALSE", FlushOnFatal="TRUE",
+            ZoneBack="FALSE", ZoneTies="FALSE")
 
 CFGS = {
     # history: all trigger kinds, sizes below / at / above the limit and above the buffer, restarts, two days
@@ -22,6 +23,9 @@ CFGS = {
     ("C06", "quick"): dict(Ls="{3}", Ns="{0, 1, 2, 3}", Opts="{0, 4}", Sizes="{2}", MaxSends=6, MaxDay=0, Ticks="TRUE"),
     ("C06", "thorough"): dict(Ls="{3}", Ns="{99, 0, 1, 2, 3, 4}", Opts="{0, 1, 4}", Sizes="{2}", MaxSends=7, MaxDay=1, Ticks="TRUE"),
     # size: all sizes around three limits
+    # the local date goes back once (another time zone) while time goes on: retention, names, read-back, days
+    ("C06", "zone"): dict(Ls="{3}", Ns="{0, 2, 3}", Opts="{0, 2, 4}", Sizes="{2}", MaxSends=5, MaxDay=1, Ticks="TRUE", ZoneBack="TRUE"),
+    ("C09", "zone"): dict(Ls="{0, 3}", Ns="{0, 2}", Opts="{2, 3, 6}", Sizes="{1, 2}", MaxSends=4, MaxDay=2, MaxRestarts=1, ZoneBack="TRUE"),
     ("C07", "quick"): dict(Ls="{2, 3, 5}", Ns="{0, 2}", Opts="{0, 1, 2}", Sizes="{1, 2, 3, 4}", MaxSends=4, MaxDay=1),
     ("C07", "thorough"): dict(Ls="{2, 3, 5}", Ns="{0, 2, 1}", Opts="{0, 1, 2, 3, 4}", Sizes="{1, 2, 3, 4, 6}", MaxSends=5, MaxDay=1),
     # compression: multi-write bodies, a crash anywhere
@@ -59,6 +63,11 @@ def main():
     c.update(dict(Ls="{3}", Ns="{2}", Opts="{6}", Sizes="{2, 4}", MaxSends=4, MaxCrash=1, MaxFault=1, MaxGzWrites=2))
     for w in ["W_NeverRotates", "W_NeverRetires", "W_NeverCompresses", "W_NeverLeftover", "W_NeverFaulted",
               "W_NeverTwoDays", "W_NeverDirectWrite"]:
+        open(os.path.join(SPEC, f"MC_Rot_{w}.cfg"), "w").write(body(c, [w], []))
+    c = dict(BASE)
+    c.update(dict(Ls="{3}", Ns="{2}", Opts="{2}", Sizes="{2}", MaxSends=4, MaxDay=1, ZoneBack="TRUE"))
+    open(os.path.join(SPEC, "MC_Rot_W_ZoneTie.cfg"), "w").write(body(dict(c, ZoneTies="TRUE", Ns="{2}", Opts="{0}"), ["SurvivorsAreRecentSuffix"], []))
+    for w in ["W_NeverZonedRotation"]:
         open(os.path.join(SPEC, f"MC_Rot_{w}.cfg"), "w").write(body(c, [w], []))
     c = dict(BASE)
     c.update(dict(Ls="{0}", Ns="{0}", Opts="{0}", Sizes="{1}", MaxSends=1, Fatal="TRUE", FlushOnFatal="FALSE"))
